@@ -2,6 +2,7 @@ import TTModel.Proto
 import TTModel.C13_Json
 import TTModel.C13_Codec
 import TTModel.C19_CLI
+import TTGen.C19_Dispatch
 /-! C19 driver: create_jacobians / make_unconstrained / create_meanfield's rewriting on wire-encoded JSON. -/
 open TT.Proto TT.C13 TT.C13.Json TT.C19
 
@@ -63,15 +64,28 @@ def handle (line : String) : String :=
       | none => "raises"
     | none => "bad-op"
   | "unc" :: toks => match decodeAll toks with
-    | some j => match makeUnconstrained j with
+    | some j => match makeUnconstrained TTGen.C19.unconstrain j with
       | some r => "ok " ++ encodeStr (.arr [r.json, .arr r.unres, .arr r.params])
       | none => "raises"
     | none => "bad-op"
   | "mf" :: toks => match decodeAll toks with
-    | some j => match meanfieldRewrite j with
+    | some j => match meanfieldRewrite TTGen.C19.meanfield j with
       | some r => "ok " ++ encodeStr r
       | none => "raises"
     | none => "bad-op"
+  /- `final <hmc|mcmc|advi> <clock><ratio><piecewise><nonCentered as 0/1> <json>` -/
+  | "final" :: cmd :: flags :: toks =>
+    let post? : Option Post := match cmd with
+      | "hmc" => some TTGen.C19.postHmc | "mcmc" => some TTGen.C19.postMcmc | "advi" => some TTGen.C19.postAdvi
+      | _ => none
+    match post?, flags.toList, decodeAll toks with
+    | some post, [a, b, c, d], some j =>
+      let f : Flags := ⟨a == '1', b == '1', c == '1', d == '1'⟩
+      (match finalJacobians post f j with
+       | some l => "ok " ++ encodeStr (jointJacobian l)
+       | none => "raises")
+    | _, _, _ => "bad-op"
+  | ["table"] => s!"{TTGen.C19.recognised} {repr TTGen.C19.unconstrain} {repr TTGen.C19.meanfield}"
   | "collect" :: toks => match decodeAll toks with
     | some j => match collect (subvalues j) with
       | some ids => "ok " ++ encodeStr (.arr ids)
